@@ -7,6 +7,7 @@ from . import common as cm
 PID = 'C04'
 Q = ['w', 'x', 'y', 'z']
 IN = Q + ['sa', 'sm', 'cd', 'sd']        # attitude, the two positive scalings, cos/sin of the magnetic dip
+IND = IN + ['ce', 'se']                  # ... and cos/sin of a magnetic declination (reference with an East component)
 
 
 # ------------------------------------------------------------------------------------------
@@ -38,11 +39,19 @@ def _sym_vec(l):
     return symnp.array([S.const(e) if not isinstance(e, S) else e for e in l])
 
 
-def _sym_meas(v, gref, mref, meas='T'):
+def _rotz(m, ce, se):
+    """the reference turned about the vertical by the declination (ce, se) = (cos, sin): a non-zero East component"""
+    return [m[0] * ce - m[1] * se, m[0] * se + m[1] * ce, m[2]]
+
+
+def _sym_meas(v, gref, mref, meas='T', decl=False):
     """(acc, mag) = (sa * M g, sm * M m) with M = Rspec(q)^T or Rspec(q), all symbolic"""
     R = _sym_R(v)
     M = R.T if meas == 'T' else R
-    g, m = _sym_vec(gref), _sym_vec(mref(v.cd, v.sd))
+    mm = mref(v.cd, v.sd)
+    if decl:
+        mm = _rotz(mm, v['ce'], v['se'])
+    g, m = _sym_vec(gref), _sym_vec(mm)
     return v.sa * (M @ g), v.sm * (M @ m), g, m
 
 
@@ -160,12 +169,52 @@ def targets():
                 return []        # the singularity test is gone (repaired): the `_refuted` file then no longer compiles
             raise
 
-    def triad_dip(A, v):
-        a, m, _, _ = _sym_meas(v, UP, lambda cd, sd: [0.5, 0, 0.8660254037844386])
-        return F(A).TRIAD(v2=60.0, frame='NED').estimate(a, m)
+    mkd = lambda n, f, doc='', **k: Target(f'C04_{n}', IND, f, doc=doc, **k)
+
+    def triad_decl(A, v):
+        a, m, g, mr = _sym_meas(v, UP, _ned, decl=True)
+        return F(A).TRIAD(v1=g, v2=mr).estimate(a, m)
+
+    def triad_reuse(A, v):
+        # one object: first estimate under the ENU-style pair, then v1/v2 re-assigned (as the docstring shows) and a second estimate
+        a0, m0, g0, mr0 = _sym_meas(v, DOWN, _enu)
+        a, m, g, mr = _sym_meas(v, UP, _ned, decl=True)
+        t = F(A).TRIAD(v1=g0, v2=mr0)
+        t.estimate(a0, m0)
+        t.v1, t.v2 = g, mr
+        return t.estimate(a, m)
+
+    def fqa_decl(A, v):
+        a, m, _, mr = _sym_meas(v, DOWN, _ned, decl=True)
+        e = F(A).FQA(mag_ref=np.array([0.5, 0.0, 0.8660254037844386]))
+        e.m_ref = mr
+        return e.estimate(a, m)
+
+    def quest_decl(A, v):
+        a, m, _, mr = _sym_meas(v, UP, _ned, decl=True)
+        e = F(A).QUEST(magnetic_dip=60.0)
+        e.m_q = mr
+        return e.estimate(a, m)
+
+    def davenport_K_decl(A, v):
+        a, m, _, mr = _sym_meas(v, UP, _ned, decl=True)
+        e = F(A).Davenport(magnetic_dip=60.0, gravity=1.0)
+        e.m_q = mr
+        return _capture(A, ('eig', 'eigh'), lambda: e.estimate(a, m))[0]
+
+    def flae_W_decl(A, v):
+        a, m, g, mr = _sym_meas(v, UP, _ned_neg, decl=True)
+        e = F(A).FLAE(magnetic_dip=60.0, weights=np.array([0.5, 0.5]))
+        e.ref = np.vstack((np.array(g), np.array(mr)))
+        return _capture(A, ('eig', 'eigh'), lambda: e.estimate(a, m, method='eig'))[0]
 
     return [
-        mk('triad_dip', triad_dip, "TRIAD(v2=60.0) (dip angle as a float, as _set_second_triad_reference documents)"),
+        mkd('triad_decl', triad_decl, "TRIAD with a magnetic reference turned by a declination: v2 = (cd*ce, cd*se, sd)"),
+        mkd('triad_reuse', triad_reuse, "one TRIAD object: estimate under ENU-style references, re-assign v1/v2, estimate again"),
+        mkd('fqa_decl', fqa_decl, "FQA with mag_ref = (cd*ce, cd*se, sd)"),
+        mkd('quest_decl', quest_decl, "QUEST with m_q = (cd*ce, cd*se, sd)", prune=_not_converged),
+        mkd('davenport_K_decl', davenport_K_decl, "Davenport's K with m_q = (cd*ce, cd*se, sd)"),
+        mkd('flae_W_decl', flae_W_decl, "FLAE's W with magnetic reference (cd*ce, cd*se, -sd)"),
         mk('triad_NED', triad(_ned, 'rotmat'), "TRIAD(v1=(0,0,1), v2=(cd,0,sd)).estimate(sa R^T v1, sm R^T v2)"),
         mk('triad_ENU', triad(_enu, 'rotmat'), "TRIAD(v1=(0,0,1), v2=(0,cd,-sd)).estimate(...)"),
         mk('triad_ctor', triad_ctor(_ned), "TRIAD(w1, w2, v1, v2).A"),
@@ -191,8 +240,7 @@ STAGES = []
 
 
 STAGES = [['C04_tac.v'],
-          ['C04_matrix.v', 'C04_eigen.v', 'C04_closed.v',
-           ('C04_refuted_triad_dip.v', {'finding': 'triad_dip_NED/raises-TypeError'}),
+          ['C04_matrix.v', 'C04_eigen.v', 'C04_closed.v', 'C04_decl.v',
            ('C04_refuted_flae.v', {'finding': 'flae_newton/identity-fallback'})],
           ['C04.v']]
 COQ_TIMEOUT = 600
@@ -274,6 +322,21 @@ def _impl():
         lambda A, M, d, g, mr: Fl.OLEQ(A, M, magnetic_ref=d, frame='NED').Q)
     add('oleq_ENU', UP, _enu, 'T', 'q', 'closed', lambda a, m, d, g, mr: Fl.OLEQ(magnetic_ref=d, frame='ENU').estimate(a, m),
         lambda A, M, d, g, mr: Fl.OLEQ(A, M, magnetic_ref=d, frame='ENU').Q)
+    # the same estimators handed the reference as a VECTOR (any declination; the entries above pass the dip in degrees)
+    def dav(a, m, d, g, mr):
+        e = Fl.Davenport(magnetic_dip=d); e.m_q = _f(mr); return e.estimate(a, m)
+    def flae(meth):
+        def f(a, m, d, g, mr):
+            e = Fl.FLAE(magnetic_dip=d); e.ref = np.vstack((_f(g), _f(mr))); return e.estimate(a, m, method=meth)
+        return f
+    add('davenport_vec', UP, _ned, 'T', 'q', 'free', dav)
+    add('flae_eig_vec', UP, _ned_neg, 'T', 'q', 'free', flae('eig'))
+    add('quest_vec', UP, _ned, 'T', 'q', 'closed', lambda a, m, d, g, mr: Fl.QUEST(magnetic_dip=[float(t) for t in mr]).estimate(a, m),
+        lambda A, M, d, g, mr: Fl.QUEST(A, M, magnetic_dip=[float(t) for t in mr]).Q)
+    add('fqa_ENUref', DOWN, _enu, 'T', 'q', 'closed', lambda a, m, d, g, mr: Fl.FQA(mag_ref=_f(mr)).estimate(a, np.array(m, dtype=float)),
+        lambda A, M, d, g, mr: Fl.FQA(A, M, mag_ref=_f(mr)).Q)
+    for n in ('triad_NED', 'triad_ENU', 'triad_NED_q', 'triad_ENU_q', 'fqa', 'fqa_ENUref', 'davenport_vec', 'flae_eig_vec', 'quest_vec'):
+        T[n]['decl'] = True          # takes the reference as a vector: exercised with declinations
     return T
 
 
@@ -287,12 +350,15 @@ def impl():
     return _IMPL
 
 
-def _measure(q, dipdeg, sa, sm, e):
+def _measure(q, dipdeg, sa, sm, e, decl=0.0):
     """consistent data for table entry e: (acc, mag, g, mref, expected rotation matrix of the returned attitude)"""
     q = _f(q)
     R = cm.Rspec(q)
     cd, sd = math.cos(math.radians(dipdeg)), math.sin(math.radians(dipdeg))
-    g, mr = _f(e['gref']), _f(e['mref'](cd, sd))
+    mm = e['mref'](cd, sd)
+    if decl:
+        mm = _rotz(mm, math.cos(math.radians(decl)), math.sin(math.radians(decl)))
+    g, mr = _f(e['gref']), _f(mm)
     M = R.T if e['meas'] == 'T' else R
     exp = {'q': R, 'R': R, 'q*': R.T, 'RT': R.T}[e['ret']]
     return sa * (M @ g), sm * (M @ mr), g, mr, exp
@@ -350,7 +416,8 @@ def o_estimate(inp):
     est = inp['est']
     e = T[est]
     q = _f(inp['q'])
-    a, m, g, mr, exp = _measure(q, inp['dip'], inp['sa'], inp['sm'], e)
+    decl = float(inp.get('decl', 0.0)) if e.get('decl') else 0.0
+    a, m, g, mr, exp = _measure(q, inp['dip'], inp['sa'], inp['sm'], e, decl)
     form = inp.get('form', 'estimate')
     np.random.seed(int(inp.get('seed', 0)) % (2 ** 32))          # OLEQ draws its start from the global NumPy RNG
     with warnings.catch_warnings():
@@ -374,7 +441,7 @@ def o_estimate(inp):
                         qi = cm.rand_unit_quat(rng)
                         while not in_general_position(qi):
                             qi = cm.rand_unit_quat(rng)
-                        A[i], Mg[i] = _measure(qi, inp['dip'], inp['sa'], inp['sm'], e)[:2]
+                        A[i], Mg[i] = _measure(qi, inp['dip'], inp['sa'], inp['sm'], e, decl)[:2]
                 if form == 'ctor1':
                     out = e['many'](A[0].copy(), Mg[0].copy(), inp['dip'], g, mr)
                     res = np.asarray(out)
@@ -444,13 +511,17 @@ def o_oleq_fixed(inp):
     fr = inp['frame']
     e = impl()[f'oleq_{fr}']
     q = _f(inp['q'])
-    a, m, g, mr, exp = _measure(q, inp['dip'], inp['sa'], inp['sm'], e)
+    decl = float(inp.get('decl', 0.0))
+    a, m, g, mr, exp = _measure(q, inp['dip'], inp['sa'], inp['sm'], e, decl)
     rnd = np.random.random
     np.random.random = lambda n=None: q + 0.5
     try:
         with warnings.catch_warnings():
             warnings.simplefilter('ignore')
-            res = e['one'](a, m, inp['dip'], g, mr)
+            if decl:
+                res = ahrs.filters.OLEQ(magnetic_ref=_f(mr), frame=fr).estimate(a, m)
+            else:
+                res = e['one'](a, m, inp['dip'], g, mr)
     finally:
         np.random.random = rnd
     Rr = _as_rot(res, 'q') if res is not None else 'None'
@@ -463,7 +534,75 @@ def o_oleq_fixed(inp):
     return None
 
 
-ORACLES = {'estimate': o_estimate, 'acc2q': o_acc2q, 'triad_dip': o_triad_dip, 'oleq_fixed': o_oleq_fixed}
+def _reuse_table():
+    """class -> (make(), set(obj, g, mr, wts), estimate(obj, a, m), gref, mref, ret, exact?)   — `set` only touches public
+    attributes the docstrings present as settable (references, weights)"""
+    import ahrs
+    Fl = ahrs.filters
+    def set_triad(o, g, mr, w): o.v1, o.v2 = _f(g), _f(mr)
+    def set_mq(o, g, mr, w): o.m_q, o.w = _f(mr), _f(w)
+    def set_flae(o, g, mr, w): o.ref, o.a = np.vstack((_f(g), _f(mr))), _f(w) / np.sum(w)
+    def set_oleq(o, g, mr, w): o.m_ref, o.a_ref, o.a = _f(mr), _f(g), _f(w)
+    def set_fqa(o, g, mr, w): o.m_ref = _f(mr)
+    nop = lambda o, g, mr, w: None
+    est = lambda o, a, m: o.estimate(a, m)
+    return {
+        'TRIAD': (lambda: Fl.TRIAD(v1=_f(DOWN), v2=_f(_enu(0.5, 0.8660254037844386))), set_triad, est, UP, _ned, 'RT', True),
+        'TRIAD_q': (lambda: Fl.TRIAD(v1=_f(DOWN), v2=_f(_enu(0.5, 0.8660254037844386))), set_triad,
+                    lambda o, a, m: o.estimate(a, m, 'quaternion'), UP, _ned, 'q*', True),
+        'Davenport': (lambda: Fl.Davenport(magnetic_dip=-20.0), set_mq, est, UP, _ned, 'q', True),
+        'QUEST': (lambda: Fl.QUEST(magnetic_dip=-20.0), set_mq, est, UP, _ned, 'q', True),
+        'FLAE_eig': (lambda: Fl.FLAE(magnetic_dip=-20.0), set_flae, lambda o, a, m: o.estimate(a, m, method='eig'), UP, _ned_neg, 'q', True),
+        'FLAE_newton': (lambda: Fl.FLAE(magnetic_dip=-20.0), set_flae, lambda o, a, m: o.estimate(a, m, method='newton'), UP, _ned_neg, 'q', False),
+        'FLAE_symbolic': (lambda: Fl.FLAE(magnetic_dip=-20.0), set_flae, lambda o, a, m: o.estimate(a, m, method='symbolic'), UP, _ned_neg, 'q', False),
+        'OLEQ': (lambda: Fl.OLEQ(magnetic_ref=-20.0, frame='ENU'), set_oleq, est, DOWN, _oleq_ned, 'q', False),
+        'FQA': (lambda: Fl.FQA(mag_ref=_f(_enu(0.5, 0.8660254037844386))), set_fqa, lambda o, a, m: o.estimate(a, np.array(m, dtype=float)), DOWN, _ned, 'q', True),
+        'SAAM': (lambda: Fl.SAAM(), nop, est, UP, _ned, 'q*', True),
+        'FAMC': (lambda: Fl.FAMC(), nop, est, UP, _ned, 'q', True),
+        'Tilt': (lambda: Fl.Tilt(), nop, est, UP, _ned, 'q', True),
+        'AQUA': (lambda: Fl.AQUA(), nop, est, UP, _ned, 'q', True),
+    }
+
+
+def o_reuse(inp):
+    """object re-use: estimate -> re-assign the public reference / weight attributes -> estimate again gives what a fresh
+    object with the same attributes gives (bit for bit), and, for the exact estimators, the true attitude within 1e-7 rad.
+    inp: cls, q0 (first call), q, dip, decl, sa, sm, w (weights for the second call), seed"""
+    cls = inp['cls']
+    make, setref, est, gref, mref, ret, exact = _reuse_table()[cls]
+    e = dict(gref=gref, mref=mref, meas='R' if cls == 'AQUA' else 'T', ret=ret)
+    decl = 0.0 if cls in ('SAAM', 'FAMC', 'Tilt', 'AQUA') else float(inp.get('decl', 0.0))     # these take no reference
+    a, m, g, mr, exp = _measure(inp['q'], inp['dip'], inp['sa'], inp['sm'], e, decl)
+    # first call: data consistent with the object's ORIGINAL references are not needed — any valid sample exercises the state
+    a0, m0 = _measure(inp['q0'], 35.0, 1.0, 1.0, e, 0.0)[:2]
+    w = inp.get('w', [1.0, 1.0])
+    with warnings.catch_warnings():
+        warnings.simplefilter('ignore')
+        with np.errstate(all='ignore'):
+            used = make()
+            np.random.seed(int(inp.get('seed', 0)) % (2 ** 32))
+            est(used, a0.copy(), m0.copy())
+            setref(used, g, mr, w)
+            np.random.seed(int(inp.get('seed', 0)) % (2 ** 32))
+            r1 = est(used, a.copy(), m.copy())
+            fresh = make()
+            setref(fresh, g, mr, w)
+            np.random.seed(int(inp.get('seed', 0)) % (2 ** 32))
+            r2 = est(fresh, a.copy(), m.copy())
+    r1, r2 = np.real(np.asarray(r1, dtype=complex)), np.real(np.asarray(r2, dtype=complex))
+    if r1.shape != r2.shape or not np.all(np.isfinite(r1)) or min(np.max(np.abs(r1 - r2)), np.max(np.abs(r1 + r2))) > 1e-12:
+        return {'tag': f'{cls}/reuse-differs-from-fresh', 'observed': r1, 'expected': r2}
+    if exact and in_general_position(inp['q']):
+        Rr = _as_rot(r1, ret)
+        if isinstance(Rr, str):
+            return {'tag': f'{cls}/reuse-not-an-attitude', 'observed': r1}
+        err = _angle(Rr, exp)
+        if not err <= TOL:
+            return {'tag': f'{cls}/reuse-inexact', 'observed': {'angle_error_rad': err, 'returned': r1}, 'expected': {'rotation': exp}}
+    return None
+
+
+ORACLES = {'estimate': o_estimate, 'acc2q': o_acc2q, 'triad_dip': o_triad_dip, 'oleq_fixed': o_oleq_fixed, 'reuse': o_reuse}
 
 
 def _call(f, inp, name):
@@ -507,7 +646,8 @@ def search(ctx, scale):
     names = list(T)
     free = [n for n in names if T[n]['cls'] == 'free']
     draw = lambda: dict(dip=float(rng.uniform(-80, 80)), sa=float(10 ** rng.uniform(-2, 2)), sm=float(10 ** rng.uniform(-2, 2)),
-                        seed=int(rng.integers(0, 2 ** 31)))
+                        seed=int(rng.integers(0, 2 ** 31)),
+                        decl=float(rng.choice([0.0, 30.0, -30.0, float(rng.uniform(-30, 30)), float(rng.uniform(-180, 180))])))
     k = lambda est, form, q: (est, form, tuple(np.round(q, 5)))
     # 1. singular poses for the singularity-free class (exactly representable inputs, also as Python lists)
     for j, (region, q) in enumerate(singular_poses()):
@@ -546,6 +686,12 @@ def search(ctx, scale):
         for fr in ('NED', 'ENU'):
             inp = dict(q=_f(q).tolist(), frame=fr, **draw())
             ctx.check('triad_dip', inp, _call(o_triad_dip, inp, f'triad_dip_{fr}'), nontrivial_key=('triad_dip', fr, tuple(np.round(q, 5))))
+    # 7. object re-use after re-assigning references / weights (declinations, other plane, other weights)
+    for i in range(6 * scale):
+        q0, q = _gp_quat(rng), _gp_quat(rng)
+        for cls in _reuse_table():
+            inp = dict(cls=cls, q0=q0.tolist(), q=q.tolist(), w=[0.3, 0.7] if i % 2 else [1.0, 1.0], **draw())
+            ctx.check('reuse', inp, _call(o_reuse, inp, cls), nontrivial_key=('reuse', cls, tuple(np.round(q, 5))))
     # 6. OLEQ started at the true attitude (fixed point of its iteration; not affected by the recorded iteration-cap findings)
     for i in range(20 * scale):
         q = _gp_quat(rng)
@@ -574,8 +720,10 @@ def _cases(ctx, n, cls):
         else:
             q = _gp_quat(ctx.rng) if cls == 'closed' else cm.rand_unit_quat(ctx.rng)
         dip = float(ctx.rng.uniform(-80, 80))
-        out.append(dict(zip(IN, [*q, float(10 ** ctx.rng.uniform(-2, 2)), float(10 ** ctx.rng.uniform(-2, 2)),
-                                 math.cos(math.radians(dip)), math.sin(math.radians(dip))])))
+        de = float(ctx.rng.choice([30.0, -30.0, float(ctx.rng.uniform(-180, 180))]))
+        out.append(dict(zip(IND, [*q, float(10 ** ctx.rng.uniform(-2, 2)), float(10 ** ctx.rng.uniform(-2, 2)),
+                                  math.cos(math.radians(dip)), math.sin(math.radians(dip)),
+                                  math.cos(math.radians(de)), math.sin(math.radians(de))])))
     return out
 
 
@@ -610,9 +758,30 @@ def correspondence(ctx):
     import ahrs
     ctx.correspond('C04_triad_ctor', _cases(ctx, n, 'free'),
                    lambda c: (lambda a, m, g, mr: ahrs.filters.TRIAD(a, m, v1=g, v2=mr).A)(*_meas_c(c, 'triad_NED')), tol_ulp=64, abs_tol=2e-9)
+    # references with a declination; re-used TRIAD object
+    def q_decl(c):
+        a, m, g, mr = _meas_c(c, 'quest', True)
+        est = ahrs.filters.QUEST(magnetic_dip=60.0); est.m_q = mr
+        return est.estimate(a, m)
+    def triad_reuse(c):
+        a0, m0, g0, mr0 = _meas_c(c, 'am2DCM_NED')          # gravity reference down
+        a0, m0, g0, mr0 = c['sa'] * (cm.Rspec(_f([c[k] for k in Q])).T @ _f(DOWN)), None, _f(DOWN), _f(_enu(c['cd'], c['sd']))
+        m0 = c['sm'] * (cm.Rspec(_f([c[k] for k in Q])).T @ mr0)
+        a, m, g, mr = _meas_c(c, 'triad_NED', True)
+        t = ahrs.filters.TRIAD(v1=g0, v2=mr0); t.estimate(a0, m0); t.v1, t.v2 = g, mr
+        return t.estimate(a, m)
+    with warnings.catch_warnings():
+        warnings.simplefilter('ignore')
+        ctx.correspond('C04_triad_decl', _cases(ctx, n, 'free'),
+                       lambda c: (lambda a, m, g, mr: ahrs.filters.TRIAD(v1=g, v2=mr).estimate(a, m))(*_meas_c(c, 'triad_NED', True)), tol_ulp=64, abs_tol=2e-9)
+        ctx.correspond('C04_triad_reuse', _cases(ctx, n, 'free'), triad_reuse, tol_ulp=64, abs_tol=2e-9)
+        ctx.correspond('C04_fqa_decl', _cases(ctx, n, 'closed'),
+                       lambda c: (lambda a, m, g, mr: ahrs.filters.FQA(mag_ref=mr).estimate(a, np.array(m)))(*_meas_c(c, 'fqa', True)),
+                       tol_ulp=64, abs_tol=2e-9, up_to_sign=True)
+        ctx.correspond('C04_quest_decl', _cases(ctx, n, 'closed'), q_decl, tol_ulp=64, abs_tol=2e-9, up_to_sign=True)
     # captured LAPACK inputs: the top eigenvector of the model's matrix (evaluated inside Coq) is what the public call returns
     from vlib import core
-    for tname, name in (('davenport_K', 'davenport'), ('flae_W', 'flae_eig')):
+    for tname, name in (('davenport_K', 'davenport'), ('flae_W', 'flae_eig'), ('davenport_K_decl', 'davenport'), ('flae_W_decl', 'flae_eig')):
         t = ctx.targets.get(f'C04_{tname}')
         if t is None or t.error:
             continue
@@ -620,7 +789,7 @@ def correspondence(ctx):
         from pysym import emit
         pre = ['From Coq Require Import List. From Coq Require Import Uint63. From Coq Require Import PrimFloat.',
                'From AhrsLib Require Import FBase.', 'From AhrsGen Require Import C04gen_F.', 'Import ListNotations.', 'Open Scope float_scope.']
-        exprs = [f"C04_{tname}_F " + ' '.join(emit._hexf(float(c[v])) for v in IN) for c in cases]
+        exprs = [f"C04_{tname}_F " + ' '.join(emit._hexf(float(c[v])) for v in t.inputs) for c in cases]
         outs = ctx.coq_eval(f'C04_{tname}', pre, exprs)
         if outs is None:
             continue
@@ -632,7 +801,7 @@ def correspondence(ctx):
             K = np.array(r[0][1]).reshape(4, 4)
             wv, V = np.linalg.eigh((K + K.T) / 2)
             top = V[:, int(np.argmax(wv))]
-            a, m, g, mr = _meas_c(c, name)
+            a, m, g, mr = _meas_c(c, name, tname.endswith('_decl'))
             if name == 'davenport':
                 est = ahrs.filters.Davenport(magnetic_dip=60.0, gravity=1.0); est.m_q = mr
                 got = np.real(est.estimate(a, m))
@@ -649,9 +818,12 @@ def correspondence(ctx):
         ctx.say(f"[corr] C04_{tname}: {len(cases)} cases, top eigenvector of the regenerated matrix vs public estimate()")
 
 
-def _meas_c(c, name):
+def _meas_c(c, name, decl=False):
     e = impl()[name]
     R = cm.Rspec(_f([c[k] for k in Q]))
-    g, mr = _f(e['gref']), _f(e['mref'](c['cd'], c['sd']))
+    mm = e['mref'](c['cd'], c['sd'])
+    if decl:
+        mm = _rotz(mm, c['ce'], c['se'])
+    g, mr = _f(e['gref']), _f(mm)
     M = R.T if e['meas'] == 'T' else R
     return c['sa'] * (M @ g), c['sm'] * (M @ mr), g, mr
